@@ -681,6 +681,13 @@ impl Version {
         self.state.get_id(logical_path)
     }
 
+    /// Returns a logical path in the version's state that has the specified digest, if any
+    pub fn first_path_for_digest(&self, digest: &HexDigest) -> Option<Rc<LogicalPath>> {
+        self.state
+            .get_paths(digest)
+            .and_then(|paths| paths.iter().next().cloned())
+    }
+
     /// Returns true if the specified path exists as either a logical file or directory
     pub fn exists(&self, path: &LogicalPath) -> bool {
         self.is_file(path) || self.is_dir(path)
